@@ -1,47 +1,49 @@
 import AmcVerif.Props.C04e
 /-! C04 (a pool of two sets) — histories that interleave operations on TWO SmallSets (same N and comparator), `swap` between them
-and `operator==` observed at any point refine the same history on two `std::set`s: every answer (insertion booleans, erase counts,
-the result of `==`) is the `std::set`s', after every prefix, whatever states (inline / large / drained) the two sets are in and
+and `operator==` / `operator<` observed at any point refine the same history on two `std::set`s: every answer (insertion booleans, erase counts,
+the results of `==` and `<`) is the `std::set`s', after every prefix, whatever states (inline / large / drained) the two sets are in and
 however often they were exchanged.  Generated members throughout (`stepG`, `Gen.SmallSet.swap`, `Gen.SmallSet.op_eq`). -/
 namespace AmcVerif.Props.C04
 open AmcVerif AmcVerif.FS AmcVerif.Sets AmcVerif.Bridge.SmallSet
 variable {α : Type} {lt : α → α → Bool}
 
 inductive POp (α : Type) where
-  | on0 (op : SOp α) | on1 (op : SOp α) | swp | eq
+  | on0 (op : SOp α) | on1 (op : SOp α) | swp | eq | less
 
-def stepG2 (lt : α → α → Bool) (N : Nat) (eqT : α → α → Bool) (p : SSet α × SSet α) : POp α → Option ((SSet α × SSet α) × SOut)
+def stepG2 (lt : α → α → Bool) (N : Nat) (eqT ltT : α → α → Bool) (p : SSet α × SSet α) : POp α → Option ((SSet α × SSet α) × SOut)
   | .on0 op => (stepG lt N p.1 op).map (fun r => ((r.1, p.2), r.2))
   | .on1 op => (stepG lt N p.2 op).map (fun r => ((p.1, r.1), r.2))
   | .swp => (Gen.SmallSet.swap lt N p.1 p.2).map (fun r => ((r.1, r.2.1), SOut.unit))
   | .eq => (Gen.SmallSet.op_eq lt N p.1 lt p.2 eqT).map (fun r => (p, SOut.flag r.1))
+  | .less => (Gen.SmallSet.op_lt lt N p.1 lt p.2 ltT).map (fun r => (p, SOut.flag r.1))
 
-def stepA2 (lt : α → α → Bool) (eqT : α → α → Bool) (a : List α × List α) : POp α → (List α × List α) × SOut
+def stepA2 (lt : α → α → Bool) (eqT ltT : α → α → Bool) (a : List α × List α) : POp α → (List α × List α) × SOut
   | .on0 op => (((stepA lt a.1 op).1, a.2), (stepA lt a.1 op).2)
   | .on1 op => ((a.1, (stepA lt a.2 op).1), (stepA lt a.2 op).2)
   | .swp => ((a.2, a.1), SOut.unit)
   | .eq => (a, SOut.flag (Gen.SmallSet.vecEq eqT a.1 a.2))
+  | .less => (a, SOut.flag (Gen.SmallSet.vecLess ltT a.1 a.2))
 
-def runG2 (lt : α → α → Bool) (N : Nat) (eqT : α → α → Bool) :
+def runG2 (lt : α → α → Bool) (N : Nat) (eqT ltT : α → α → Bool) :
     SSet α × SSet α → List (POp α) → Option ((SSet α × SSet α) × List SOut)
   | p, [] => some (p, [])
   | p, op :: ops =>
-    match stepG2 lt N eqT p op with
+    match stepG2 lt N eqT ltT p op with
     | none => none
-    | some (p', o) => (runG2 lt N eqT p' ops).map (fun r => (r.1, o :: r.2))
+    | some (p', o) => (runG2 lt N eqT ltT p' ops).map (fun r => (r.1, o :: r.2))
 
-def runA2 (lt : α → α → Bool) (eqT : α → α → Bool) : List α × List α → List (POp α) → (List α × List α) × List SOut
+def runA2 (lt : α → α → Bool) (eqT ltT : α → α → Bool) : List α × List α → List (POp α) → (List α × List α) × List SOut
   | a, [] => (a, [])
   | a, op :: ops =>
-    ((runA2 lt eqT (stepA2 lt eqT a op).1 ops).1, (stepA2 lt eqT a op).2 :: (runA2 lt eqT (stepA2 lt eqT a op).1 ops).2)
+    ((runA2 lt eqT ltT (stepA2 lt eqT ltT a op).1 ops).1, (stepA2 lt eqT ltT a op).2 :: (runA2 lt eqT ltT (stepA2 lt eqT ltT a op).1 ops).2)
 
 /-- both sets satisfy the invariant and are represented by the two `std::set`s -/
 def Rep2 (lt : α → α → Bool) (N : Nat) (p : SSet α × SSet α) (a : List α × List α) : Prop :=
   p.1.Inv lt N ∧ p.2.Inv lt N ∧ Rep lt p.1 a.1 ∧ Rep lt p.2 a.2
 
-theorem C04_pool_step (hswo : SWO lt) (N : Nat) (eqT : α → α → Bool) (p : SSet α × SSet α) (a : List α × List α)
+theorem C04_pool_step (hswo : SWO lt) (N : Nat) (eqT ltT : α → α → Bool) (p : SSet α × SSet α) (a : List α × List α)
     (h : Rep2 lt N p a) (op : POp α) :
-    ∃ p' o, stepG2 lt N eqT p op = some (p', o) ∧ o = (stepA2 lt eqT a op).2 ∧ Rep2 lt N p' (stepA2 lt eqT a op).1 := by
+    ∃ p' o, stepG2 lt N eqT ltT p op = some (p', o) ∧ o = (stepA2 lt eqT ltT a op).2 ∧ Rep2 lt N p' (stepA2 lt eqT ltT a op).1 := by
   obtain ⟨h0, h1, r0, r1⟩ := h
   cases op with
   | on0 op =>
@@ -55,29 +57,33 @@ theorem C04_pool_step (hswo : SWO lt) (N : Nat) (eqT : α → α → Bool) (p : 
   | eq =>
     obtain ⟨e1, _⟩ := C04_gen_eq_repr hswo hswo N p.1 p.2 h0 h1 eqT a.1 a.2 r0.1 r0.2 r1.1 r1.2
     exact ⟨p, SOut.flag (Gen.SmallSet.vecEq eqT a.1 a.2), by simp [stepG2, e1], rfl, h0, h1, r0, r1⟩
+  | less =>
+    have e1 : Gen.SmallSet.op_lt lt N p.1 lt p.2 ltT = some (Gen.SmallSet.vecLess ltT a.1 a.2, 0) := by
+      rw [op_lt_eq]; simp only [ltS, ← Rep_unique hswo N p.1 h0 _ r0, ← Rep_unique hswo N p.2 h1 _ r1]
+    exact ⟨p, SOut.flag (Gen.SmallSet.vecLess ltT a.1 a.2), by simp [stepG2, e1], rfl, h0, h1, r0, r1⟩
 
 /-- **every history over the pool** -/
-theorem C04_pool_history (hswo : SWO lt) (N : Nat) (eqT : α → α → Bool) (ops : List (POp α)) :
+theorem C04_pool_history (hswo : SWO lt) (N : Nat) (eqT ltT : α → α → Bool) (ops : List (POp α)) :
     ∀ (p : SSet α × SSet α) (a : List α × List α), Rep2 lt N p a →
-      ∃ p' outs, runG2 lt N eqT p ops = some (p', outs) ∧ outs = (runA2 lt eqT a ops).2 ∧ Rep2 lt N p' (runA2 lt eqT a ops).1 := by
+      ∃ p' outs, runG2 lt N eqT ltT p ops = some (p', outs) ∧ outs = (runA2 lt eqT ltT a ops).2 ∧ Rep2 lt N p' (runA2 lt eqT ltT a ops).1 := by
   induction ops with
   | nil => intro p a h; exact ⟨p, [], rfl, rfl, h⟩
   | cons op ops ih =>
     intro p a h
-    obtain ⟨p1, o, hg, ho, h1⟩ := C04_pool_step hswo N eqT p a h op
+    obtain ⟨p1, o, hg, ho, h1⟩ := C04_pool_step hswo N eqT ltT p a h op
     obtain ⟨p2, outs, hg2, ho2, h2⟩ := ih p1 _ h1
     exact ⟨p2, o :: outs, by simp [runG2, hg, hg2], by simp [runA2, ho, ho2], h2⟩
 
 /-- from two empty sets -/
-theorem C04_pool_from_empty (hswo : SWO lt) (N : Nat) (eqT : α → α → Bool) (ops : List (POp α)) :
-    ∃ p' outs, runG2 lt N eqT (⟨[], []⟩, ⟨[], []⟩) ops = some (p', outs) ∧ outs = (runA2 lt eqT ([], []) ops).2
-      ∧ Rep2 lt N p' (runA2 lt eqT ([], []) ops).1 :=
-  C04_pool_history hswo N eqT ops _ _
+theorem C04_pool_from_empty (hswo : SWO lt) (N : Nat) (eqT ltT : α → α → Bool) (ops : List (POp α)) :
+    ∃ p' outs, runG2 lt N eqT ltT (⟨[], []⟩, ⟨[], []⟩) ops = some (p', outs) ∧ outs = (runA2 lt eqT ltT ([], []) ops).2
+      ∧ Rep2 lt N p' (runA2 lt eqT ltT ([], []) ops).1 :=
+  C04_pool_history hswo N eqT ltT ops _ _
     ⟨⟨fun _ => rfl, by simp, by simp [NoEquivDup], by simp [Sorted]⟩, ⟨fun _ => rfl, by simp, by simp [NoEquivDup], by simp [Sorted]⟩,
      Rep_empty, Rep_empty⟩
 
-example : ∃ p' outs, runG2 exLt 2 (fun a b => a == b) (⟨[], []⟩, ⟨[], []⟩)
-      [.on0 (.insR [3, 1, 2]), .on1 (.ins 2), .on1 (.ins 1), .eq, .on0 (.del 3), .eq, .swp, .on1 (.clr), .eq] = some (p', outs) :=
-  let ⟨p', outs, h, _⟩ := C04_pool_from_empty exLt_swo 2 (fun a b => a == b) _; ⟨p', outs, h⟩
+example : ∃ p' outs, runG2 exLt 2 (fun a b => a == b) exLt (⟨[], []⟩, ⟨[], []⟩)
+      [.on0 (.insR [3, 1, 2]), .on1 (.ins 2), .on1 (.ins 1), .eq, .on0 (.del 3), .eq, .less, .swp, .on1 (.clr), .eq, .less] = some (p', outs) :=
+  let ⟨p', outs, h, _⟩ := C04_pool_from_empty exLt_swo 2 (fun a b => a == b) exLt _; ⟨p', outs, h⟩
 
 end AmcVerif.Props.C04
